@@ -29,7 +29,6 @@ package node
 import (
 	"context"
 	"fmt"
-	"os"
 	"sort"
 	"strings"
 	"testing"
@@ -1230,8 +1229,8 @@ func c23Run(t *rapid.T, rec *ev.Recorder) {
 	}
 	e := c23NewEnv(kdd, leakGrace)
 	w := e.w
-	knownAttrs := ev.Known(c23KnownAttrs) || os.Getenv("VERIF_C23_ASSUME_KNOWN") != ""
-	knownOrder := ev.Known(c23KnownOrder) || os.Getenv("VERIF_C23_ASSUME_KNOWN") != ""
+	knownAttrs := ev.Known(c23KnownAttrs)
+	knownOrder := ev.Known(c23KnownOrder)
 	// A deleted node's name is never reused (see limits): five names, each added at most once.
 	nodeNames := []string{"n0", "n1", "n2", "n3", "n4"}
 	usedNodes := map[string]bool{"n0": true, "n1": true}
